@@ -35,26 +35,26 @@ CHECKS = {
             'reachability / must-pass-through / paired-update checks'),
     'C10': ('exact-read loop recogniser for header and body, header format agreement and calcsize, transport exceptions cannot escape un-mapped, sendall and no raw socket I/O outside the framing functions',
             'AST loop recogniser + CFG dominators + exception-escape summaries'),
-    'C11': ('no client-induced exception can leave the accept loop; no unbounded wait of the accept thread depends on the client only; abandoned clients are closed; registries mutated only after success',
-            'tainted exception edges vs handler position, blocking-call multiplexing check'),
+    'C11': ('no client-induced exception can leave the accept loop; no unbounded wait of the accept thread depends on the client only; abandoned clients are closed; registries mutated only after success; every mp.connection use has a structural reason why the submodule is imported',
+            'tainted exception edges vs handler position, blocking-call multiplexing check, who-may-write, submodule-import rule'),
     'C12': ('reap loop of the server covers every registry with forced terminate and SIGTERM fallback; registration on creation; graceful path reaches the reap loop',
             'site/shape checks on RemoteServer.run and the release chain'),
     'C13': ('private dispatch table chains to copyreg; remote=False installs no remote reducer; __getstate__ remote flags default to False and are passed by keyword; dynamic table routes only opt-in classes',
             'dataflow into dispatch_table, dominance by the remote flag, signature checks'),
-    'C14': ('exactly one flagged __getstate__ call per reduce; reduce value shape; optional-hook guards; frame-balance belief check of break_patches/child_restored',
-            'path counting, shape check, linear effect summaries with symbolic child count'),
-    'C15': ('per-thread state is a threading.local re-initialised on every context entry; single merge site; loads/load enter the context on every path; producer/consumer coverage of patch frames',
-            'definite assignment + who-may-write + coverage comparison'),
-    'C16': ('state travels with every outcome report in the agreed order; guarded setter; restart order and init_state; getter reaches the deferred store',
-            'channel send/receive sequence agreement, who-may-write, call-graph reachability'),
+    'C14': ('exactly one flagged __getstate__ call per reduce; reduce value shape; optional-hook guards; who-may-write frame on the payload variables (what is sent is what was taken); frame-balance belief check of break_patches/child_restored',
+            'path counting, shape check, def-use frame, linear effect summaries with symbolic child count'),
+    'C15': ('per-thread state is a threading.local re-initialised on every context entry; single merge site; loads/load enter the context on every path; producer/consumer coverage of patch frames; producer/consumer agreement on what a real frame is (write-back reached for every dict patch)',
+            'definite assignment + who-may-write + coverage comparison + three-valued abstract evaluation of the consumer tests'),
+    'C16': ('state travels with every outcome report in the agreed order; guarded setter; restart order and init_state; getter reaches the deferred store; every death-reporting return of the remote wait() passes the join of the storing thread',
+            'channel send/receive sequence agreement, who-may-write, call-graph reachability, must-pass-through on the CFG'),
     'C17': ('__dict__.clear() dominated by death evidence; constructor-argument completeness of _get_restart_args; re-initialisation through type(self).__init__ with _is_restart; Pool.restart_workers re-keys both maps',
             'dominance + set comparison over resolved __init__ chains'),
     'C18': ('context table protocol: insert only if absent, boolean reply, non-raising lookups/removal on client-supplied ids; injected-key agreement; delete chain wait->terminate; client maps False to ValueError',
             'site/shape checks + key-set agreement'),
-    'C19': ('pruned registry written back to the attribute that is read; lock discipline and no yield under the lock; registration after successful start, idempotent; autoclose chain close->wait->terminate in finally',
+    'C19': ('pruned registry written back to the attribute that is read, computed entirely inside the storing critical section (provenance of the written-back value); lock discipline and no yield under the lock; registration after successful start, idempotent; autoclose chain close->wait->terminate in finally',
             'def-use on class attributes, lock-scope check, path check'),
-    'C20': ('every untimed Event.wait() in a constructor closure is matched by set() on every exit of the started thread; start-up receives from spawned processes are sentinel-guarded; failure releases resources; registration after _start',
-            'must-pass-through on the CFG with exception edges, multiplexed-wait recogniser'),
+    'C20': ('every untimed Event.wait() in a constructor closure is matched by set() on every exit of the started thread; start-up receives from spawned processes are sentinel-guarded; failure releases resources; registration after _start; every mp.connection use has a structural reason why the submodule is imported',
+            'must-pass-through on the CFG with exception edges, multiplexed-wait recogniser, submodule-import rule'),
 }
 
 NOT_APPLICABLE = {}
